@@ -362,20 +362,18 @@ def _r6_condition_numbers(ctx) -> None:
     for d, want_count, want_pct in samples:
         got = {}
 
-        def cls(**kw):
+        from ..tabulate import ClassProxy, call_method
+        fields_ = [st.target.id for st in prog.cls(CQ).node.body if isinstance(st, ast.AnnAssign) and isinstance(st.target, ast.Name)]
+
+        def ctor(*a, **kw):
+            got.update(dict(zip(fields_, a)))
             got.update(kw)
             return kw
-        for nm, m in prog.cls(CQ).methods.items():   # helper static/class methods of the condition class
-            if nm not in ("from_dict", "to_dict") and not nm.startswith("__"):
-                pass
-        it = Interp({"cls": cls, "d": dict(d), "source": None, "SigmaCorrelationConditionOperator": _Op, "sigma_exceptions": _Exc(),
-                     "ValueError": ValueError, "TypeError": TypeError, "OverflowError": OverflowError, "KeyError": KeyError}, max_steps=5000,
-                    behaviours=(ValueError, TypeError, OverflowError))
-        for nm, m in prog.cls(CQ).methods.items():
-            if nm not in ("from_dict", "to_dict") and not nm.startswith("__"):
-                setattr(cls, nm, it._make_function(ast.FunctionDef(name=m.node.name, args=m.node.args, body=m.node.body, decorator_list=[], lineno=m.node.lineno, col_offset=0)))
+        env6 = {"SigmaCorrelationConditionOperator": _Op, "sigma_exceptions": _Exc()}
+        IK6 = {"max_steps": 5000, "behaviours": (ValueError, TypeError, OverflowError, KeyError)}
+        klass = ClassProxy(prog, CQ, env6, ctor=ctor, interp_kwargs=IK6)
         try:
-            it.call(f.node.body)
+            call_method(prog, CQ, "from_dict", klass, env6, dict(d), None, interp_kwargs=IK6)
         except Raised as ex:
             if want_count != "<refused>":
                 bad.append((d, f"refused ({ex})"))
